@@ -11,12 +11,30 @@ CHECKS = {
  "C02": ("5.2", "Same generated models with min/max objectives: at every source-feasible test point the best linear objective over all auxiliary extensions (exact optimisation) must equal the source objective.",
          "Trusted: exact oracle and reference evaluator; 1e-6 relative comparison; finite sample of points per model.",
          "property-based testing: generated models + exact optimisation over auxiliaries vs reference evaluator"),
+ "C03": ("5.3", "Whole source texts printed from generated typed models with random spelling are solved through the one-shot entry point; the answer is judged by the harness's exact interpreter: exhaustive enumeration for all-discrete models (both directions), certificate + sampled comparison for models with reals.",
+         "Trusted: reference interpreter and printer (written from the documentation, cross-checked by C09's reference parser); 1e-6 tolerance on solver arithmetic; for reals the 'no better assignment' direction is decided on a finite test set.",
+         "property-based testing: generated programs + exact reference interpreter / exhaustive enumeration"),
  "C04": ("5.4", "Generated linear/MILP models through the public LinearModel API, every built-in solver entry point run, every returned solution re-checked against the model (certificate check).",
          "Trusted: f64 re-evaluation of rows with the 1e-6 scaled tolerance; solver calls that never return are observed through a helper thread with a 5 s budget.",
          "property-based testing: generated linear models + solution certificate checking"),
  "C05": ("5.5", "Generated small exactly-decidable linear/MILP models; every solver's verdict and optimal value compared with an exact rational simplex / branch-and-bound oracle.",
          "Trusted: the exact oracle (cross-checked against enumeration and Fourier-Motzkin on start-up). Known findings of the microlp dependency are matched by instance class + answer.",
          "property-based testing: differential against an exact rational LP/MILP oracle"),
+ "C09": ("5.9", "Exhaustive enumeration of all parenthesis-free operator sequences up to 4 (thorough 5) operands plus random trees printed with random spelling; rooc's parse is compared by value at all small assignments with an independent precedence-climbing parser.",
+         "Trusted: the reference tokenizer/parser (written from the documented table; self-checked against the harness's own printer on every generated tree).",
+         "exhaustive enumeration + property-based testing: differential against an independent reference parser"),
+ "C10": ("5.10", "Exhaustive enumeration of all expression trees up to 4 (thorough 5) nodes plus random trees: simplify / flatten compared with the original by exact evaluation at all small well-sorted assignments, idempotence, surviving divisions; generated twin models with re-spelled constants must be accepted alike and denote the same feasible set and objective.",
+         "Trusted: exact reference evaluator; assignments are restricted to the documented domain of the logic operators (0/1 operands); constant folding inside rooc is compared with 1e-12 relative tolerance.",
+         "exhaustive enumeration + property-based testing: metamorphic (rewrite / re-spelling must not change meaning)"),
+ "C11": ("5.11", "Generated full source texts (random spelling, where-constants, comments, all declaration forms), untyped operator trees, the exhaustive depth-2 nesting table and literal programs with iterations/graphs/escaped names: format() must succeed, re-parse, be idempotent and transform to the same Model.",
+         "Trusted: JSON comparison of rooc's own Model (spans stripped); data-driven constructs are covered by literal programs and C06's generator, not by the random grammar.",
+         "property-based testing: round trip (format then parse) + idempotence"),
+ "C12": ("5.12", "Compiled models from the generators (non-affine operators, named rows, tightened/infinite domains, coefficients 1e-9..1e9): Model::to_string() and LinearModel::to_string() must parse, type-check and re-compile to the same linear model; render/compile/render must be a fixpoint. Differences are classified as the recorded known finding only when an exact MILP oracle proves both models equivalent.",
+         "Trusted: exact MILP oracle for the equivalence classification; comparison is modulo trivially-true constant rows, duplicate rows and declared-but-unused variables (stated reading, DESIGN.md section 10); restricted to models as the text front-end produces them.",
+         "property-based testing: round trip (render then compile) + exact-oracle equivalence"),
+ "C16": ("5.16", "One generated model realised through ModelBuilder (operators, helpers, permuted call order, unused variable), source text (constants inline / where / API), PipeRunner and RoocSolver: linear models identical, verdicts and optimal values equal, builder read-back (var_value, numeric_value, eval, value) equals the reference semantics; the constraint!/expr! macros are covered by a generated table of all 590 operator sequences of up to 3 operators compared with the reference parser.",
+         "Trusted: reference evaluator and parser; macros are covered by enumeration at build time, not by run-time generation.",
+         "property-based testing: differential between entry points + enumerated macro table"),
  "C07": ("5.7", "Generated models (incl. propagation chains, cycles exhausting the step limit, contradictions, inexact coefficients); derived and published ranges must contain every source-feasible test point, derived enclosures must contain exact expression values at box points.",
          "Trusted: reference evaluator; hook verif_hooks::analyze_bounds is a read-only wrapper; containment uses a 1e-9 relative allowance (stated weakening).",
          "property-based testing: generated models + exact evaluation against derived intervals (via read-only hook)"),
